@@ -56,7 +56,11 @@ static myth_thread_t self_of[MAXB];
 static int cur_body(void);
 static void dtor1(void *v){ U("U_Dtor", 3, (long)cur_body(), 1L, (long)v); }
 static void dtor2(void *v){ U("U_Dtor", 3, (long)cur_body(), 2L, (long)v); }
-static void dtor3(void *v){ U("U_Dtor", 3, (long)cur_body(), 3L, (long)v); }
+/* destructor 3 may itself end the thread (prologue kind 6): the first time it is called with a value it calls myth_exit
+   with the value the thread was ending with; the exit runs the remaining destructors and must not call this one again */
+static int dexit_on = 0; static volatile long ret_of[256]; static volatile char dexit_done[256], dexit_off[256];
+static void dtor3(void *v){ int k = cur_body(); U("U_Dtor", 3, (long)k, 3L, (long)v);
+  if (dexit_on && v && k > 0 && k < 256 && !dexit_done[k] && !dexit_off[k]){ dexit_done[k] = 1; myth_exit((void *)ret_of[k]); } }
 static void (*dtors[4])(void *) = { 0, dtor1, dtor2, dtor3 };
 static void lock_(int k, int m){ U("U_LockCall", 2, (long)k, MXID(m)); myth_mutex_lock(&mtx[m]); U("U_LockRet", 2, (long)k, MXID(m)); }
 static void unlock_(int k, int m){ U("U_UnlockCall", 2, (long)k, MXID(m)); myth_mutex_unlock(&mtx[m]); U("U_UnlockRet", 2, (long)k, MXID(m)); }
@@ -89,7 +93,7 @@ static void *body_fn(void *a_){
   targ_t *a = a_; int k = a->k;
   U("U_BodyStart", 2, (long)k, a->tok);
   long v = run_ops(k);   /* plain return; default value 1000 + k, or the operand of RET */
-  cell[k] = 5000 + k;
+  cell[k] = 5000 + k; if (k < 256) ret_of[k] = v;
   U("U_BodyEnd", 3, (long)k, v, 0L);
   return (void *)v;
 }
@@ -98,7 +102,7 @@ static void *body_fn(void *a_){
 static __attribute__((noinline)) void nested_exit(int k, long v, int depth){
   volatile char pad[64]; pad[0] = (char)depth;
   if (depth > 0) { nested_exit(k, v, depth - 1); pad[1] = pad[0]; return; }
-  cell[k] = 5000 + k;
+  cell[k] = 5000 + k; if (k < 256) ret_of[k] = v;
   U("U_BodyEnd", 3, (long)k, v, 1L);
   myth_exit((void *)v);
 }
@@ -277,6 +281,7 @@ static int exec_op(int k, op_t *o, long *ret){
         v = myth_getspecific((myth_key_t)kk); U("U_GetSpecific", 3, (long)k, kk, (long)v); break; }
     case OP_CANCEL: U("U_CancelCall", 2, (long)k, (long)o->a); myth_cancel(handle[o->a]); cancel_req[o->a] = 1; U("U_CancelRet", 2, (long)k, (long)o->a); break;
     case OP_TESTCANCEL: /* poll until cancelled (never returns normally) */
+      if (k < 256) dexit_off[k] = 1;
       for (;;){
         U("U_TestCancelCall", 1, (long)k); myth_testcancel(); U("U_TestCancelRet", 1, (long)k);
         myth_verif_spin(98); yield_(k, myth_yield_option_local_first); }
@@ -371,7 +376,7 @@ int main(int argc, char **argv){
   for (i = 0; i < MAXO; i++){ bar_n[i] = 2; jc_n[i] = 1; bufcap[i] = 1; }
   if (fscanf(fp, "%d", &nini) != 1) return 2;
   for (i = 0; i < nini; i++){ int kind, idx, n; if (fscanf(fp, "%d %d %d", &kind, &idx, &n) != 3) return 2;
-    if (kind == 1) bar_n[idx] = n; else if (kind == 2) jc_n[idx] = n; else if (kind == 3) bufcap[idx] = n; else if (kind == 4) ws_mode = n; else if (kind == 5) vstep_ms = n; }
+    if (kind == 1) bar_n[idx] = n; else if (kind == 2) jc_n[idx] = n; else if (kind == 3) bufcap[idx] = n; else if (kind == 4) ws_mode = n; else if (kind == 5) vstep_ms = n; else if (kind == 6) dexit_on = n; }
   for (i = 0; i < nbodies; i++){
     if (fscanf(fp, "%d", &bodies[i].n) != 1) return 2;
     bodies[i].ops = calloc(bodies[i].n + 1, sizeof(op_t));
